@@ -141,3 +141,21 @@ def retrychain(rng):
     })
     spec["retry_delay"] = delay
     return spec, [], dict(policy="random")
+
+
+def collect2(rng):
+    """start sends m = rounds*n T2 to `c_gather` (k workers, gated BEFORE collect_events so invocations overlap and
+    see stale snapshots), which collects n T2 per set and returns T3 per full set; `d_sink` swallows T3.  The run is
+    ended by the workflow timeout (virtual time) once everything is quiet."""
+    n = rng.choice([1, 2, 2, 3])
+    rounds = rng.choice([1, 2, 3])
+    k = rng.choice([1, 2, 3, 4])
+    spec = dict(steps={
+        "a_start": dict(accepts=[StartEvent], returns=[T2, type(None)], num_workers=1,
+                        script=[("send", T2, n * rounds, None), ("return", None)]),
+        "c_gather": dict(accepts=[T2], returns=[T3, type(None)], num_workers=k,
+                         script=[("gate", "c"), ("collect", [T2] * n, None), ("return", T3)]),
+        "d_sink": dict(accepts=[T3], returns=[StopEvent, type(None)], num_workers=2, script=[("return", None)]),
+    }, timeout=500.0)
+    spec["collect_n"], spec["collect_rounds"], spec["collect_k"] = n, rounds, k
+    return spec, [], dict(policy=rng.choice(["random", "lifo", "fifo"]))
